@@ -372,6 +372,26 @@ def mutated_windows(cases, maxpos=48, win=4, values=BAD_BYTES2):
     return bases, pre
 
 
+PAIR_ALPHA = bytes([0, 1, 9, 10, 13, 32, 33, 47, 48, 57, 58, 65, 70, 71, 97, 102, 103, 126, 127, 128, 0xBA, 0xC3, 0xFE, 0xFF])
+PAIR_MSGS = (("q", b"GET /a HTTP/1.1\r\nH: v\r\n\r\n"), ("p", b"HTTP/1.1 200 OK\r\nH: v\r\n\r\n"),
+             ("p", b"HTTP/1.0 404\r\n\r\n"), ("c", b"1aF;x=y\r\nzz"), ("h", b"Ab: cd\r\n\r\n"))
+
+
+def fam_pair256(tag="pair2"):
+    """two ADJACENT bytes of a short message replaced by every pair of a 24-value alphabet, at every position of its
+       first 20 bytes: word-at-a-time code (a 3- or 4-byte load with carries or borrows between the lanes) misbehaves
+       on a combination of neighbours that no single replaced byte produces"""
+    out = []
+    for m, (kind, b) in enumerate(PAIR_MSGS):
+        for i in range(min(len(b) - 1, 20)):
+            for x in PAIR_ALPHA:
+                for y in PAIR_ALPHA:
+                    w = b[:i] + bytes([x, y]) + b[i + 2:]
+                    cfg = 0 if kind in "ch" else (0, 0x7f)[(x + y) % 2]
+                    out.append(("A", "%s.%d.%d.%02x%02x" % (tag, m, i, x, y), kind, 0 if kind in "ch" else 1, cfg, 2, w))
+    return out
+
+
 def adversarial(seed, sizes, tag="adv"):
     """long runs of folds, ignored lines, whitespace, HTAB near-misses, obs-text, one huge header"""
     out = []
